@@ -60,11 +60,13 @@ func (t ConfigureTransition) do(env *Environment) (err error) {
 		// err = t.taskman.ConfigureTasks(env.Id().Array(), tasks)
 		taskmanMessage := task.NewEnvironmentMessage(taskop.ConfigureTasks, env.Id(), activeTasks, nil)
 		t.taskman.MessageChannel <- taskmanMessage
-	}
-	incomingEv := <-env.stateChangedCh
-	// If some tasks failed to transition
-	if tasksStateErrors := incomingEv.GetTasksStateChangedError(); tasksStateErrors != nil {
-		return tasksStateErrors
+
+		// nothing is sent for an empty task list, so there is no state change to wait for
+		incomingEv := <-env.stateChangedCh
+		// If some tasks failed to transition
+		if tasksStateErrors := incomingEv.GetTasksStateChangedError(); tasksStateErrors != nil {
+			return tasksStateErrors
+		}
 	}
 
 	env.sendEnvironmentEvent(&event.EnvironmentEvent{EnvironmentID: env.Id().String(), State: "CONFIGURED"})
